@@ -2,6 +2,7 @@
 C11 - hexagonal mesh and torus path functions return true shortest paths.
 -/
 import RigModel.Model.C11
+import RigModel.Lemmas.C11
 set_option linter.unusedSimpArgs false
 set_option linter.unusedVariables false
 
@@ -19,5 +20,53 @@ theorem links_consistent :
     (∀ l, l < 6 → opposite (opposite l) = l ∧ opposite l < 6 ∧ opposite l ≠ l) ∧
     hexSteps = (List.range 6).filterMap specVec := by
   decide
+
+/-- **Lipschitz.** The hexagonal norm changes by at most one over each of the six unit steps. -/
+theorem hexLen_unit_step (x y : Int) (d : P2) (h : d ∈ hexSteps) :
+    hexLen (x + d.1) (y + d.2) ≤ hexLen x y + 1 ∧ hexLen x y ≤ hexLen (x + d.1) (y + d.2) + 1 :=
+  hexLen_lipschitz x y h
+
+theorem meshLen_eq_hexLen (s d : V3) :
+    meshLen s d = hexLen ((proj d).1 - (proj s).1) ((proj d).2 - (proj s).2) := by
+  simp only [meshLen, hexLen, proj]
+  repeat' split
+  all_goals omega
+
+/-- **Mesh length = graph distance**, for all three-axis representations of source and destination:
+there is a walk of exactly `meshLen` hops between the two chips and no walk is shorter. -/
+theorem meshLen_eq_dist (s d : V3) :
+    0 ≤ meshLen s d ∧ IsDist none none (proj s) (proj d) (meshLen s d).toNat := by
+  rw [meshLen_eq_hexLen]
+  refine ⟨hexLen_nonneg _ _, ?_, ?_⟩
+  · have := reach_mesh_upper (proj s) ((proj d).1 - (proj s).1) ((proj d).2 - (proj s).2)
+    have e : ((proj s).1 + ((proj d).1 - (proj s).1), (proj s).2 + ((proj d).2 - (proj s).2)) = proj d := by
+      ext <;> simp <;> omega
+    rwa [e] at this
+  · intro m r
+    have := reach_mesh_lower r
+    omega
+
+/-- **Torus length = graph distance** in the `w × h` hexagonal torus, for every width and height ≥ 1
+(including 1 and 2) and all three-axis representations. -/
+theorem torusLen_eq_dist (s d : V3) (w h : Int) (hw : 1 ≤ w) (hh : 1 ≤ h) :
+    ∃ n : Nat, torusLen s d w h = .ok (n : Int) ∧
+      IsDist (some w) (some h) (projT s w h) (projT d w h) n := by
+  have hw' : 0 < w := by omega
+  have hh' : 0 < h := by omega
+  obtain ⟨h0, hd⟩ := torus_dist (proj s) (proj d) w h hw' hh'
+  refine ⟨_, ?_, hd⟩
+  have : ¬ (w = 0 ∨ h = 0) := by omega
+  simp only [torusLen, this, if_false, torusLenCore_eq s d w h hw' hh']
+  congr 1
+  omega
+
+/-- zero width or height is the only error and it is a ZeroDivisionError -/
+theorem torusLen_error (s d : V3) (w h : Int) :
+    (∃ e, torusLen s d w h = .error e) ↔ (w = 0 ∨ h = 0) := by
+  simp only [torusLen]
+  split <;> simp_all
+
+/-- non-vacuity: on the 1 x 2 torus the two chips are one hop apart -/
+example : torusLen ⟨0, 0, 0⟩ ⟨0, 1, 0⟩ 1 2 = .ok 1 := by rfl
 
 end Rig.C11
